@@ -98,7 +98,8 @@ fn resolve {|command| }
 # caller is used.
 #
 # If `$code` fails to parse or compile, the parse error or compilation error is
-# raised as an exception.
+# raised as an exception. Since no code was evaluated and there is no new
+# namespace, the `&on-end` callback is not called in this case.
 #
 # Basic examples that do not modify the namespace or any variable:
 #
